@@ -127,6 +127,34 @@ def r_numeric_writers(chk, P, tier):
             ok = ok and "timestamp" in accs
         chk.expect(ok, name, "Numeric::%s is written by %s(width %s) from %s; documentation: width %s from %s" % (name, fn, gw, accs, width, want_acc),
                    loc=P.loc("format::formatting::DelayedFormat::<I>::format_numeric"))
+    # an item is rendered only from parts that are present: the date / time options are used through their `Some` binding, never defaulted
+    chk.rule("REQ.inputs", "format_numeric renders an item only from a present date / time (pattern-bound `Some`), never from a defaulted one; %s needs both", floor=20)
+    df = [f["name"] for f in P.adts["format::formatting::DelayedFormat"]["variants"][0]["fields"]]
+    idx = {df.index("date"): "date", df.index("time"): "time"}
+    for name, got in sorted(w.items()):
+        value = got[5]
+        used = set()
+        bad = []
+
+        def scan(t, parent_some):
+            if not isinstance(t, tuple) or not t:
+                return
+            if t[0] == "field" and t[2] in idx and t[1] in (("deref", ("arg", 1)), ("arg", 1)):
+                used.add(idx[t[2]])
+                if not parent_some:
+                    bad.append(idx[t[2]])
+                return
+            some_here = t[0] == "as" and len(t) > 2 and t[2] == "Some"
+            for x in t[1:]:
+                if isinstance(x, tuple):
+                    if x and isinstance(x[0], str):
+                        scan(x, some_here or (parent_some and t[0] in ("deref", "ref")))
+                    else:
+                        for y in x:
+                            scan(y, False)
+        scan(value, False)
+        ok = not bad and (name != "Timestamp" or used >= {"date", "time"})
+        chk.expect(ok, name, "Numeric::%s is rendered from %s; defaulted (not pattern-bound) parts: %s" % (name, sorted(used), sorted(set(bad))), loc=P.loc("format::formatting::DelayedFormat::<I>::format_numeric"))
     # explicit sign exactly for years outside 0..=9999 (write_year)
     chk.rule("BOX.year_sign", "write_year forces a sign exactly for years outside 0..=9999 and uses the 4-digit fast path for 1000..=9999", floor=2)
     fn = "format::formatting::DelayedFormat::<I>::format_numeric::write_year"
